@@ -39,19 +39,19 @@ PROPS = {
         "min": {"quick": {"c01.refreshes": 200, "c01.takeovers": 20, "c01.shutdown_deletes": 20, "c01.expiries": 20}},
         "rule": R("oracle over the complete caller-tagged mutation log of the reference store: every successful Create/Update/Delete must fit creation / refresh / legitimate takeover / owner's shutdown delete"), "assumptions": SIM_ASSUME},
     "C02": {"level": "exploration", "trigger": ["c02.flag_up"],
-        "batches": [sim("restartinrelease", 8, 80), sim("stalecheck", 6, 60), sim("fastbeat", 75, 750), sim("slowbeat", 50, 500), sim("benign", 500, 12000), sim("yieldstop", 190, 570), sim("leftover", 150, 1500), sim("holdrace", 350, 3500), sim("twoinflight", 24, 240), sim("outage", 24, 240), sim("slowdemote", 126, 252), sim("doublestop", 18, 180)],
+        "batches": [sim("sharedround", 4, 40), sim("restartinrelease", 8, 80), sim("stalecheck", 6, 60), sim("fastbeat", 75, 750), sim("slowbeat", 50, 500), sim("benign", 500, 12000), sim("yieldstop", 190, 570), sim("leftover", 150, 1500), sim("holdrace", 350, 3500), sim("twoinflight", 24, 240), sim("outage", 24, 240), sim("slowdemote", 126, 252), sim("doublestop", 18, 180)],
         "min": {"quick": {"c02.terms": 300, "c02.stops": 100, "c02.stops_inflight": 30}},
         "rule": R("benign class: 1-5 instances x 1-2 groups, H/TTL grid, latency < H/2, watch delay/drop/dup, random Start/Stop/StopWithContext/restart; oracle: instant cross-read of every instance's IsLeader() and the live record inside Metrics.SetIsLeader and at every record change/expiry"), "assumptions": SIM_ASSUME},
     "C03": {"level": "fault_enumeration", "trigger": ["c03.a_obligations", "c03.b_obligations"],
-        "batches": [sim("busypromote", 8, 80), sim("slowdemote", 126, 252), sim("ctxcancel", 48, 480), sim("c03grid", 420, 7560), sim("multiterm", 60, 1500), sim("faulty", 60, 1500), sim("holdrace", 350, 3500), sim("twocause", 126, 126), sim("outage", 24, 240)],
+        "batches": [sim("latesuccess", 6, 60), sim("busypromote", 8, 80), sim("slowdemote", 126, 252), sim("ctxcancel", 48, 480), sim("c03grid", 420, 7560), sim("multiterm", 60, 1500), sim("faulty", 60, 1500), sim("holdrace", 350, 3500), sim("twocause", 126, 126), sim("outage", 24, 240)],
         "min": {"quick": {"c03.a_obligations": 40, "c03.b_obligations": 40}},
         "rule": R("c03grid enumerates fault kind (9) x first faulty heartbeat attempt (1..6) x H (5), remaining dimensions (TTL ratio, latency, had-watch-loop) drawn per case; oracle: virtual-time bounds H+2To after replacement/deletion/expiry and 3H+3To after the last successful refresh, at most 3 failing attempts"), "assumptions": SIM_ASSUME},
     "C04": {"level": "exploration", "trigger": ["c04.calls"],
-        "batches": [sim("ordemotetwice", 8, 80), sim("ctxcancel", 48, 480), sim("hostile", 300, 6000), sim("multiterm", 60, 1000), sim("lateack", 192, 768), sim("longprobe", 32, 320), sim("ownprefix", 96, 960), sim("holdrace", 350, 3500)],
+        "batches": [sim("giveupprobe", 16, 160), sim("ordemotetwice", 8, 80), sim("ctxcancel", 48, 480), sim("hostile", 300, 6000), sim("multiterm", 60, 1000), sim("lateack", 192, 768), sim("longprobe", 32, 320), sim("ownprefix", 96, 960), sim("holdrace", 350, 3500)],
         "min": {"quick": {"c04.true": 100, "c04.false": 300, "c04.calls_with_change_inside": 20}},
-        "rule": R("hostile class: outside party rewrites the record with a 29-production payload grammar (incl. malformed values that begin with or wrap a well-formed own record), deletes/expires it, Get faults, probes with background/cancelled/deadline contexts, probes parked inside their Get while the record changes; oracle: verdict vs. record versions live during the call interval"), "assumptions": SIM_ASSUME},
+        "rule": R("hostile class: outside party rewrites the record with a 29-production payload grammar (incl. malformed values that begin with or wrap a well-formed own record), deletes/expires it, Get faults, probes with background/cancelled/deadline contexts and contexts the application cancels mid-call, probes parked inside their Get while the record changes; oracle: verdict vs. record versions live during the call interval"), "assumptions": SIM_ASSUME},
     "C05": {"level": "exploration", "trigger": ["c05.acquisitions"],
-        "batches": [rt("rt", 16, 200, chunk=2, timeout=1200), sim("acklosttakeover", 12, 120), sim("healthleak", 72, 720), sim("fastbeat", 75, 750), sim("slowbeat", 50, 500), sim("multiterm", 200, 4000), sim("benign", 100, 2000), sim("faulty", 100, 2000), sim("priorace", 60, 1500), sim("lifecycle", 100, 2000), sim("stoppoints", 150, 1000), sim("sinkrace", 54, 270), sim("holdrace", 350, 3500), sim("twocause", 126, 126), sim("dupacquire", 72, 720), sim("newlogline", 48, 96)],
+        "batches": [sim("reconnectrenew", 8, 80), rt("rt", 16, 200, chunk=2, timeout=1200), sim("acklosttakeover", 12, 120), sim("healthleak", 72, 720), sim("fastbeat", 75, 750), sim("slowbeat", 50, 500), sim("multiterm", 200, 4000), sim("benign", 100, 2000), sim("faulty", 100, 2000), sim("priorace", 60, 1500), sim("lifecycle", 100, 2000), sim("stoppoints", 150, 1000), sim("sinkrace", 54, 270), sim("holdrace", 350, 3500), sim("twocause", 126, 126), sim("dupacquire", 72, 720), sim("newlogline", 48, 96)],
         "min": {"quick": {"c05.refreshes": 2000, "c05.acquisitions": 300, "c05.insts_3terms": 50}},
         "rule": R("oracle over every record version ever written (process-wide token set across scenarios), promotion callback arguments and Token()/Status() at quiescent points"), "assumptions": SIM_ASSUME},
     "C06": {"level": "fault_enumeration", "trigger": ["c06.obligations"],
@@ -59,23 +59,23 @@ PROPS = {
         "min": {"quick": {"c06.vacancies": 150, "c06.obligations": 300}},
         "rule": R("c06 class enumerates removal kind (6) x candidate transient fault (6) x watch policy (4) x 2 passes; oracle: at every vacancy start / fault-cease / settle / demotion instant with a healthy settled instance, a healthy instance claims within B = 500ms + 100ms + 8 legs (+ callback delay)"), "assumptions": SIM_ASSUME},
     "C07": {"level": "exploration", "trigger": ["c07.terms"],
-        "batches": [sim("lateloser", 6, 60), sim("restartinrelease", 8, 80), sim("stalecheck", 6, 60), sim("fastbeat", 75, 750), sim("slowbeat", 50, 500), sim("benign", 500, 12000), sim("yieldstop", 190, 570), sim("leftover", 150, 1500), sim("holdrace", 350, 3500), sim("slowdemote", 126, 252), sim("doublestop", 18, 180)],
+        "batches": [sim("sharedround", 4, 40), sim("lateloser", 6, 60), sim("restartinrelease", 8, 80), sim("stalecheck", 6, 60), sim("fastbeat", 75, 750), sim("slowbeat", 50, 500), sim("benign", 500, 12000), sim("yieldstop", 190, 570), sim("leftover", 150, 1500), sim("holdrace", 350, 3500), sim("slowdemote", 126, 252), sim("doublestop", 18, 180)],
         "min": {"quick": {"c07.terms": 300, "c07.terms_20h": 100}},
         "rule": R("benign class (see C02); oracle: no term ends, no token change, no lapse/owner change of a claiming leader's record unless the harness stopped it"), "assumptions": SIM_ASSUME},
     "C08": {"level": "exploration", "trigger": ["c08.promotes"],
-        "batches": [sim("busypromote", 8, 80), sim("stalediag", 4, 40), sim("ordemotetwice", 8, 80), sim("lateloser", 6, 60), sim("promoterace", 16, 160), sim("fastbeat", 75, 750), sim("slowbeat", 50, 500), sim("multiterm", 200, 4000), sim("benign", 100, 2000), sim("faulty", 100, 2000), sim("connection", 60, 1000), sim("health2", 60, 1000), sim("hostile", 60, 1000), sim("lifecycle", 60, 1500), sim("restartinflight", 72, 216), sim("yieldstop", 190, 570), sim("leftover", 60, 600), sim("twocause", 126, 126), sim("holdrace", 350, 3500), sim("slowdemote", 126, 252), sim("dupacquire", 72, 720), sim("ctxcancel", 48, 480), sim("nowaitrestart", 18, 180), sim("newlogline", 48, 96)],
+        "batches": [sim("refuseddelete", 16, 160), sim("busypromote", 8, 80), sim("stalediag", 4, 40), sim("ordemotetwice", 8, 80), sim("lateloser", 6, 60), sim("promoterace", 16, 160), sim("fastbeat", 75, 750), sim("slowbeat", 50, 500), sim("multiterm", 200, 4000), sim("benign", 100, 2000), sim("faulty", 100, 2000), sim("connection", 60, 1000), sim("health2", 60, 1000), sim("hostile", 60, 1000), sim("lifecycle", 60, 1500), sim("restartinflight", 72, 216), sim("yieldstop", 190, 570), sim("leftover", 60, 600), sim("twocause", 126, 126), sim("holdrace", 350, 3500), sim("slowdemote", 126, 252), sim("dupacquire", 72, 720), sim("ctxcancel", 48, 480), sim("nowaitrestart", 18, 180), sim("newlogline", 48, 96)],
         "min": {"quick": {"c08.promotes": 500, "c08.demotes": 300, "c08.quiescent_checks": 5000}},
         "rule": R("oracle over the ordered callback log: strict alternation, one promotion per term with its token, IsLeader == (promotions - demotions == 1) at every quiescent point outside stop calls"), "assumptions": SIM_ASSUME},
     "C09": {"level": "fault_enumeration", "trigger": ["c09.stop_calls"],
-        "batches": [sim("slowphases", 4, 40), sim("restartinrelease", 8, 80), sim("closewatchstop", 16, 160), sim("fastbeat", 75, 750), sim("slowbeat", 50, 500), sim("stoppoints", 500, 2280), sim("yieldstop", 190, 570), sim("restartinflight", 72, 216), sim("lifecycle", 150, 3000), sim("benign", 100, 1500), sim("slowsink", 57, 570), sim("holdrace", 350, 3500), sim("twoinflight", 24, 240), sim("slowdemote", 126, 252), sim("doublestop", 18, 180), sim("ctxcancel", 48, 480), sim("newlogline", 48, 96)],
+        "batches": [sim("latedeleteack", 8, 80), sim("closewatchlate", 4, 40), sim("refuseddelete", 16, 160), sim("slowphases", 4, 40), sim("restartinrelease", 8, 80), sim("closewatchstop", 16, 160), sim("fastbeat", 75, 750), sim("slowbeat", 50, 500), sim("stoppoints", 500, 2280), sim("yieldstop", 190, 570), sim("restartinflight", 72, 216), sim("lifecycle", 150, 3000), sim("benign", 100, 1500), sim("slowsink", 57, 570), sim("holdrace", 350, 3500), sim("twoinflight", 24, 240), sim("slowdemote", 126, 252), sim("doublestop", 18, 180), sim("ctxcancel", 48, 480), sim("newlogline", 48, 96)],
         "min": {"quick": {"c09.stop_ok": 400, "c09.final_census": 500}},
         "rule": R("stoppoints enumerates (template cell: 20) x phase (issued-not-applied, applied-not-answered) x stop variant (17) x release delay (3) = 2040 cases (thorough: all); oracle: after the return of a successful stop no leadership claim, promotion, store-operation issue or transition; duration bounds; record gone with DeleteKey; no library goroutine left at the end"), "assumptions": SIM_ASSUME},
     "C10": {"level": "exploration", "trigger": ["c10.takeovers", "c10.refused", "c10.prompt_obligations"],
-        "batches": [sim("holddown", 4, 40), sim("acklosttakeover", 12, 120), sim("negprio", 24, 240), sim("priority", 405, 1620), sim("priorace", 150, 3000), sim("multiterm", 60, 1000), sim("refusedthen", 16, 160), sim("priosucc", 256, 1536), sim("holdrace", 350, 3500), sim("chaintakeover", 24, 240)],
+        "batches": [sim("bigprio", 8, 80), sim("holddown", 4, 40), sim("acklosttakeover", 12, 120), sim("negprio", 24, 240), sim("priority", 405, 1620), sim("priorace", 150, 3000), sim("multiterm", 60, 1000), sim("refusedthen", 16, 160), sim("priosucc", 256, 1536), sim("holdrace", 350, 3500), sim("chaintakeover", 24, 240)],
         "min": {"quick": {"c10.takeovers": 100, "c10.prompt_obligations": 50}},
         "rule": R("priority class enumerates all assignments of priority {1,2,3} x takeover flag x start order for 2 instances (108) and 3 instances (1512) (thorough: all, exhaustive); priorace adds takeover racing the incumbent's heartbeat; oracle: safety over every replacement of a live record, promptness 3H and final owner/stability in the fault-free class"), "assumptions": SIM_ASSUME},
     "C11": {"level": "fault_enumeration", "trigger": ["c11.notifications"],
-        "batches": [sim("connection", 400, 6000), sim("multiterm", 60, 1000), sim("slowsink", 57, 570), sim("holdrace", 350, 3500), sim("outage", 24, 240)],
+        "batches": [sim("reconnectrenew", 8, 80), sim("stalestamp", 12, 120), sim("connection", 400, 6000), sim("multiterm", 60, 1000), sim("slowsink", 57, 570), sim("holdrace", 350, 3500), sim("outage", 24, 240)],
         "min": {"quick": {"c11.grace_obligations": 50, "c11.verifications": 50}},
         "rule": R("connection class: notification words over {disconnect, reconnect, closed} up to length 6 with gaps on a lattice around 100ms and the grace period, 4 grace settings, store outages and ownership changes during the outage, stops; notifications are injected through the handlers the monitor registers on an unconnected nats.Conn; oracle: grace timing, verification iff, deadlock watchdog"), "assumptions": SIM_ASSUME},
     "C12": {"level": "exploration", "trigger": ["c12.checks"],
@@ -87,7 +87,7 @@ PROPS = {
         "min": {"quick": {"c13.outside.Put": 300, "c13.tamper_under_leader": 50}},
         "rule": R("hostile class (see C04) for followers, leaders and takeover-enabled candidates, zero and non-zero latency; oracle: crash / stack overflow / stall / recursion census, claims must stem from the instance's own acquisition write, tampered leader demoted within the C03(a) bound"), "assumptions": SIM_ASSUME},
     "C18": {"level": "exploration", "trigger": ["c18.snapshots"],
-        "batches": [sim("slowdemote", 126, 252), rt("rt", 16, 200, chunk=2, timeout=1200), sim("promoterace", 16, 160), sim("fastbeat", 75, 750), sim("slowbeat", 50, 500), sim("benign", 100, 2000), sim("faulty", 100, 2000), sim("multiterm", 100, 2000), sim("lifecycle", 60, 1500), sim("priorace", 60, 1000), sim("connection", 60, 1000), sim("hostile", 60, 1000), sim("restartinflight", 72, 216), sim("slowsink", 57, 570), sim("holdrace", 350, 3500), sim("ctxcancel", 48, 480), sim("newlogline", 48, 96)],
+        "batches": [sim("latedeleteack", 8, 80), sim("slowdemote", 126, 252), rt("rt", 16, 200, chunk=2, timeout=1200), sim("promoterace", 16, 160), sim("fastbeat", 75, 750), sim("slowbeat", 50, 500), sim("benign", 100, 2000), sim("faulty", 100, 2000), sim("multiterm", 100, 2000), sim("lifecycle", 60, 1500), sim("priorace", 60, 1000), sim("connection", 60, 1000), sim("hostile", 60, 1000), sim("restartinflight", 72, 216), sim("slowsink", 57, 570), sim("holdrace", 350, 3500), sim("ctxcancel", 48, 480), sim("newlogline", 48, 96)],
         "min": {"quick": {"c18.snapshots": 5000, "c18.transitions": 1000}},
         "rule": R("oracle over Status() snapshots at quiescent points (synctest.Wait), the recording Metrics (is-leader gauge, transition chain) and the store log"), "assumptions": SIM_ASSUME},
     "C19": {"level": "exploration", "trigger": ["c19.ended_checks"],
@@ -98,7 +98,7 @@ PROPS = {
     "C15": {"level": "exploration", "trigger": ["c15.expected_transient", "c15.expected_permanent", "c15.neutral", "c15.ambiguous", "c15.captured"],
         "batches": [pure("c15", 40, 1000), nats("c15captured", 1, 3, chunk=1)],
         "min": {"quick": {"c15.expected_transient": 5000, "c15.expected_permanent": 5000, "c15.captured": 8}},
-        "rule": "batch k = 5000 error trees (depth <= 4) drawn by a PCG stream seeded with (VERIF_SEED, k): leaves = library sentinels and constructors, context errors, NATS client errors and API errors, free texts over a vocabulary holding every pattern of both classifiers; inner nodes = %w wrapping (single, double), errors.Join and the library's wrapper types; oracle: laws on every value, documented class on unambiguous trees; plus the error values captured from an embedded nats-server through the library's adapter; non-trivial = every generated tree; distinct = distinct tree descriptions",
+        "rule": "batch k = 5000 error trees (depth <= 4) drawn by a PCG stream seeded with (VERIF_SEED, k): leaves = library sentinels and constructors, context errors, NATS client errors and API errors, free texts over a vocabulary holding every pattern of both classifiers; inner nodes = %w wrapping (single, double), errors.Join and the library's wrapper types; oracle: laws on every value, documented class on unambiguous trees, and the same verdicts when 8 goroutines classify the batch's values at once (20 000 classifications per batch); plus the error values captured from an embedded nats-server through the library's adapter; non-trivial = every generated tree; distinct = distinct tree descriptions",
         "assumptions": ["oracle classes transcribe the property statement; trees mixing documented-transient and documented-permanent leaves, or holding free text with a classifier pattern, are only subject to the exclusivity/totality laws"]},
     "C16": {"level": "exploration", "trigger": ["c16.expected_accept", "c16.expected_reject"], "exhaustive": "c16.exhaustive",
         "batches": [pure("c16", 8, 125, chunk=8), pure("c16rand", 5, 50, chunk=2)],
@@ -108,18 +108,18 @@ PROPS = {
     "C17": {"level": "exploration", "trigger": ["c17.backoff_inputs", "c17.retry_scripts", "c17.breaker_scripts", "c17.rounds"],
         "batches": [pure("c17backoff", 50, 1000), pure("c17retry", 100, 2000), pure("c17breaker", 100, 2000), sim("benign", 100, 2000), sim("c06", 100, 2000), sim("faulty", 60, 1000), sim("lateanswer", 36, 360)],
         "min": {"quick": {"c17.backoff_inputs": 50000, "c17.retry_scripts": 10000, "c17.breaker_scripts": 10000, "c17.rounds": 500}},
-        "rule": "backoff: 2000 configurations x attempt numbers in {0..70,100,1023,1024,1e4,1e6,MaxInt32,MaxInt} per batch, 10 draws each, against min(Max, Initial*Mult^n) in big-float arithmetic; retry: 200 outcome scripts over {ok,transient,permanent} x MaxAttempts 0..6 x cancellation times per batch inside a synctest bubble (exact virtual invocation times); breaker: 200 scripts of (dt on the cooldown lattice, outcome) per batch against a reference automaton; acquisition rounds: every round observed in the SIM traces (first attempt 10-100 ms after the round start, at most 4 attempts, backoff within 10%); distinct = distinct inputs/scripts/traces",
+        "rule": "backoff: 2000 configurations x attempt numbers in {0..70,100,1023,1024,1e4,1e6,MaxInt32,MaxInt} per batch, 10 draws each, against min(Max, Initial*Mult^n) in big-float arithmetic; retry: 200 outcome scripts over {ok,transient,permanent} x MaxAttempts 0..6 x cancellation times per batch inside a synctest bubble (exact virtual invocation times), every third script through a CircuitBreaker that never opens; breaker: 200 scripts of (dt on the cooldown lattice, outcome) per batch against a reference automaton; acquisition rounds: every round observed in the SIM traces (first attempt 10-100 ms after the round start, at most 4 attempts, backoff within 10%); distinct = distinct inputs/scripts/traces",
         "assumptions": ["domain committed in DESIGN §9 C17 (Multiplier >= 1, Jitter in [0,1], non-negative durations)"]},
 
     "C14": {"level": "exploration", "trigger": ["c14.diff_words", "c14.lin_histories", "c14.watch_runs"], "jobs": 8,
         "batches": [nats("c14diff", 26, 250, chunk=2), nats("c14lin", 10, 100, chunk=2), nats("c14watch", 6, 60, chunk=2)],
         "min": {"quick": {"c14.diff_words": 300, "c14.diff_words_expiry": 20, "c14.lin_histories": 50, "c14.watch_runs": 20}},
-        "rule": "engine NATS (embedded nats-server 2.12.2 started by the repo's own helper, the library's real adapter obtained through the verif hook): (1) differential: batch = 12 generated sequential operation words over {Create, Update with fresh/latest/stale/zero revision, Get, Delete, Watch, wait-for-expiry} x values {empty, binary, 64 KiB, JSON} on 1-3 keys, executed on the adapter and on the reference model and compared outcome by outcome (success, error identity and text, value, revision); (2) linearizability: batch = 6 histories of 4-8 concurrent clients on 2 keys, call/return stamped by one monotonic clock, checked with porcupine v1.3.0 against the KV contract (every third history runs on the reference store itself); (3) watch contract: batch = 5 runs of a consumer calling Updates() before every receive while a writer performs 10-40 writes/deletes; distinct = distinct operation words / histories / runs",
+        "rule": "engine NATS (embedded nats-server 2.12.2 started by the repo's own helper, the library's real adapter obtained through the verif hook): (1) differential: batch = 12 generated sequential operation words (every write of a word carries a TTL option like the election's: none / the bucket's / 1 ms / ten times the bucket's) over {Create, Update with fresh/latest/stale/zero revision, Get, Delete, Watch, wait-for-expiry} x values {empty, binary, 64 KiB, JSON} on 1-3 keys, executed on the adapter and on the reference model and compared outcome by outcome (success, error identity and text, value, revision); (2) linearizability: batch = 6 histories of 4-8 concurrent clients on 2 keys, call/return stamped by one monotonic clock, checked with porcupine v1.3.0 against the KV contract (every third history runs on the reference store itself); (3) watch contract: batch = 5 runs of a consumer calling Updates() before every receive while a writer performs 10-40 writes/deletes; distinct = distinct operation words / histories / runs",
         "assumptions": ["single embedded server on loopback (no clustering)", "on history-1 buckets JetStream itself coalesces rapid successive changes: there the watch clause is judged as in-order duplicate-free subsequence ending in the final state (full clause on history-64 buckets)"]},
 
     "C20": {"level": "exploration", "race": True, "trigger": ["c20.scenarios"], "jobs": 8,
-        "batches": [rt("rt", 48, 400, chunk=2, timeout=1200)],
+        "batches": [rt("rt", 48, 400, chunk=2, timeout=1200), sim("closewatchlate", 4, 40), sim("closewatchstop", 16, 160)],
         "min": {"quick": {"c20.calls.Status": 2000, "c20.calls.ValidateToken": 2000, "c20.calls.Start": 200, "c20.calls.Stop": 50, "c20.calls.conn.D": 30, "c20.terms": 50}},
-        "rule": "engine RT: the real library in real time (no bubble) built with -race, 2-4 instances with H = 20-50 ms against the reference store with real sleeps, 1.5 s per scenario; hammer goroutines per instance: 2 pollers (IsLeader/LeaderID/Token/Status), validator (ValidateToken / ValidateTokenOrDemote), callback re-registration, 2 lifecycle goroutines (Stop / StopWithContext / Start), a connection-notification dispatcher invoking the handlers the monitor registered (also stale ones), plus an outside party rewriting/deleting the record; oracle: GORACE halt_on_error=0 log files, every WARNING: DATA RACE block normalised to the pair of innermost library functions; distinct = scenarios (each a different configuration and schedule)",
-        "assumptions": ["the race detector only sees races between accesses that actually execute concurrently in these runs", "harness monitors are race-free (a report without library frames makes the run inconclusive)"]},
+        "rule": "engine RT: the real library in real time (no bubble) built with -race, 2-4 instances with H = 20-50 ms against the reference store with real sleeps, 1.5 s per scenario; hammer goroutines per instance: 2 pollers (IsLeader/LeaderID/Token/Status), validator (ValidateToken / ValidateTokenOrDemote), callback re-registration, 2 lifecycle goroutines (Stop / StopWithContext / Start), a connection-notification dispatcher invoking the handlers the monitor registered (also stale ones), plus an outside party rewriting/deleting the record; oracle: GORACE halt_on_error=0 log files, every WARNING: DATA RACE block normalised to the pair of innermost library functions; distinct = scenarios (each a different configuration and schedule); plus two enumerated virtual-time classes around a store-side watch close (closewatchstop, closewatchlate) run on the SIM engine built with -race",
+        "assumptions": ["the harness records events under one mutex: two library accesses that are only ordered through two recorded events are ordered for the race detector too (seeded change C20-r11 is missed for that reason)", "the race detector only sees races between accesses that actually execute concurrently in these runs", "harness monitors are race-free (a report without library frames makes the run inconclusive)"]},
 }
